@@ -2,7 +2,9 @@
 PROP = dict(
         module='kernel', pkg='mm/vmm', pkgname='vmm', harness=['vmm/c07_test.go'],
         n=dict(quick=400, thorough=20000),
-    extra_runs=[dict(module='kernel', pkg='mm/pmm', pkgname='pmm', harness=['pmm/pmm_test.go', 'pmm/c07pmm_test.go'],
+    extra_runs=[dict(module='kernel', pkg='mm/vmm', pkgname='vmm', harness=['vmm/swmmu_test.go', 'vmm/c04_test.go', 'vmm/c07setup_test.go'],
+                     test='TestVerifC07Setup', n=dict(quick=60, thorough=2000)),
+                dict(module='kernel', pkg='mm/pmm', pkgname='pmm', harness=['pmm/pmm_test.go', 'pmm/c07pmm_test.go'],
                      test='TestVerifC07Pmm', n=dict(quick=100, thorough=3000)),
                 dict(module='kernel', pkg='goruntime/gortcopy', pkgname='gortcopy', harness=['gortcopy/c07gort_test.go'],
                      srccopy=dict(src='kernel/goruntime/bootstrap.go', preamble='gortcopy/preamble.go.txt',
